@@ -2326,6 +2326,12 @@ class Interp:
                         for b_, s3 in self.branch(i, s2):
                             yield (keyed[b_] if b_ in keyed else ints[int(b_)]), s3
                         continue
+                if isinstance(o, Tup) and isinstance(i, tuple) and i and i[0] == 'slice' and \
+                        i[1] in (NONE, Sym.const(0)) and i[3] == NONE and isinstance(i[2], Sym) \
+                        and not i[2].is_const() and len(o.items) <= 8:
+                    # seq[:n] with a symbolic n over a known sequence: one case per length
+                    yield from self._prefix_cases(o, i[2], 0, s2)
+                    continue
                 if isinstance(o, DictV) and self._const_key(num_of(i)) and all(
                         self._const_key(k) for k, _ in o.items) and not any(
                             k == num_of(i) for k, _ in o.items):
@@ -2337,6 +2343,36 @@ class Interp:
                     yield None, s2.raising('IndexError')
                     continue
                 yield self.item_of(o, i), s2
+
+    def _prefix_cases(self, o, n, k, st):
+        """seq[:n] for a known sequence and a symbolic integer n: one case per resulting length
+        (a negative n counts from the end)."""
+        L = len(o.items)
+        for b, s in self.branch(norm_cmp('<', n, Sym.const(0)), st):
+            if not b:
+                yield from self._prefix_from(o, n, 0, s)
+                continue
+
+            def neg_from(j, s_):
+                if j >= L:
+                    yield Tup((), o.kind), s_           # n <= -L
+                    return
+                for b2, s2 in self.branch(norm_cmp('>=', n, Sym.const(-j)), s_):
+                    if b2:
+                        yield Tup(o.items[:L - j], o.kind), s2
+                    else:
+                        yield from neg_from(j + 1, s2)
+            yield from neg_from(1, s)
+
+    def _prefix_from(self, o, n, k, st):
+        if k >= len(o.items):
+            yield Tup(o.items, o.kind), st
+            return
+        for b, s in self.branch(norm_cmp('<=', n, Sym.const(k)), st):
+            if b:
+                yield Tup(o.items[:k], o.kind), s
+            else:
+                yield from self._prefix_from(o, n, k + 1, s)
 
     def item_of(self, o, i):
         if isinstance(o, Inst) and o.cls.kind == 'namedtuple':
